@@ -32,6 +32,7 @@ package blockstore
 //@   ensures finalized_err [C04]: !old(b.ronly.closed) && old(b.finalized) ==> err == errFinalized && wn(b.dataWriter) == old(wn(b.dataWriter)) && nrec(b.idx) == old(nrec(b.idx))
 
 //@ func (*ReadWrite).initWithRoots
+//@   call[File.WriteAt#0] assert pragma_at_offset_zero [C05]: ref(arg0) == ref(b.f) && len(arg1) == 11 && arg2 == 0
 //@   requires writer: b.dataWriter != nil
 //@   let hdr := call[carv1.WriteHeader#0]
 //@   call[carv1.WriteHeader#0] assert header [C01,C05]: ref(arg1) == ref(b.dataWriter) && arg0.Version == 1 && arg0.Roots == roots
@@ -85,6 +86,7 @@ package blockstore
 //@   ensures released [C08]: held(b.mu) == 0
 
 //@ func OpenReadWriteFile
+//@   ensures read_side_uses_the_same_options [C04,C07]: err == nil ==> result0.ronly.opts.BlockstoreUseWholeCIDs == result0.opts.BlockstoreUseWholeCIDs && result0.ronly.opts.ZeroLengthSectionAsEOF == result0.opts.ZeroLengthSectionAsEOF && result0.ronly.opts.MaxAllowedSectionSize == result0.opts.MaxAllowedSectionSize && result0.ronly.opts.MaxAllowedHeaderSize == result0.opts.MaxAllowedHeaderSize && result0.ronly.opts.StoreIdentityCIDs == result0.opts.StoreIdentityCIDs
 //@   let fsize := call[FileInfo.Size#0]
 //@   call[ReadWrite.initWithRoots#0] assert only_an_empty_file_is_initialised [C06,C12]: fsize == 0
 //@   note a file that holds anything is resumed (and validated by ResumableVersion / Resume) or rejected, never overwritten with a fresh header
@@ -99,6 +101,18 @@ package blockstore
 //@   call[ReadWrite.initWithRoots#0] assert args [C01,C05]: arg1 == !rwbs.opts.WriteAsCarV1 && arg2 == roots
 
 //@ func (*ReadWrite).AllKeysChan
+//@   let cerr0 := call[Context.Err#0]
+//@   ensures closed_err [C04]: old(b.ronly.closed) && cerr0 == nil ==> err == errClosed && result0 == nil
+//@   closure[0]
+//@     call[append#0] assert collects_the_key_of_the_record [C07,C08]: ref(arg0) == ref(keys) && len(arg1) == 1 && (b.opts.BlockstoreUseWholeCIDs ==> arg1[0] == old(c)) && (!b.opts.BlockstoreUseWholeCIDs ==> pversion(arg1[0]) == 1 && pcodec(arg1[0]) == 85 && mhof(arg1[0]) == mhof(old(c)))
+//@     ensures never_stops_the_walk [C07]: result == nil
+//@   end
+//@   closure[1]
+//@     ghost after call[close#0]: chclosed(out) := 1
+//@     ensures the_channel_is_closed_when_the_goroutine_ends [C07,C08]: chclosed(out) == 1
+//@     call[send#0] assert sends_the_collected_keys_in_order [C07,C08]: ref(arg0) == ref(out) && arg1 == keys[rangeindex]
+//@     call[maybeReportError#1] assert reports_the_walk_error [C02]: arg0 == ctx && arg1 == walkErr
+//@   end
 //@   requires unlocked [C08]: held(b.ronly.mu) == 0
 //@   call[InsertionIndex.ForEachCid#0] assert walks_index_under_lock [C08]: held(b.ronly.mu) == 2
 //@   ensures released [C08]: held(b.ronly.mu) == 0
@@ -123,6 +137,26 @@ package blockstore
 //@     loop[0] decreases lim(rdr) - pos(rdr)
 //@     call[Seeker.Seek#1] assert next_section_start [C07]: arg1 == wrap_s64(here + wrap_s64(length)) && arg2 == 0 && here == athead(0, pos(rdr)) - sbase(rdr) + vsize(length)
 //@     ensures released [C08]: held(b.mu) == 0
+//@     let _, c0, cerr := call[cid.CidFromReader#0]
+//@     let _, serr := call[Seeker.Seek#1]
+//@     call[cid.CidFromReader#0] assert reads_the_key_at_the_section_start [C07]: ref(arg0) == ref(rdr) && herr == nil && length != 0
+//@     call[send#0] assert yields_the_section_key [C07,C08]: ref(arg0) == ref(ch) && cerr == nil && serr == nil && (b.opts.BlockstoreUseWholeCIDs ==> arg1 == c0) && (!b.opts.BlockstoreUseWholeCIDs ==> pversion(arg1) == 1 && pcodec(arg1) == 85 && mhof(arg1) == mhof(c0))
+//@     ghost before call[varint.ReadUvarint#0]: mark(b) := 0
+//@     ghost after call[maybeReportError#0]: mark(b) := 1
+//@     ghost after call[maybeReportError#1]: mark(b) := 1
+//@     ghost after call[maybeReportError#2]: mark(b) := 1
+//@     ghost after call[maybeReportError#3]: mark(b) := 1
+//@     ghost after call[maybeReportError#4]: mark(b) := 1
+//@     call[maybeReportError#0] assert reports_the_length_error [C02]: arg0 == ctx && arg1 == lerr && lerr != io.EOF
+//@     call[maybeReportError#1] assert reports_the_zero_length_section [C02]: arg0 == ctx && arg1 == errZeroLengthSection && length == 0 && !b.opts.ZeroLengthSectionAsEOF
+//@     call[maybeReportError#2] assert reports_the_seek_error [C02]: arg0 == ctx && arg1 == herr
+//@     call[maybeReportError#3] assert reports_the_key_error [C02]: arg0 == ctx && arg1 == cerr
+//@     call[maybeReportError#4] assert reports_the_skip_error [C02]: arg0 == ctx && arg1 == serr
+//@     check a_scan_that_stops_on_an_error_reports_it [C02]: (lerr != nil && lerr != io.EOF) || (lerr == nil && length == 0 && !b.opts.ZeroLengthSectionAsEOF) || (lerr == nil && length != 0 && (herr != nil || cerr != nil || serr != nil)) ==> mark(b) == 1
+//@     ghost after call[close#0]: chclosed(ch) := 1
+//@     ensures the_channel_is_closed_when_the_scan_ends [C07,C08]: chclosed(ch) == 1
+//@     loop[0] step never_continues_after_a_zero_length_section [C07]: length != 0
+//@     check a_clean_end_reports_nothing [C02]: lerr == io.EOF || (lerr == nil && length == 0 && b.opts.ZeroLengthSectionAsEOF) ==> mark(b) == 0
 //@   end
 
 // Lock discipline of the remaining public methods (C08): each takes ronly.mu itself (so must be entered without it:
@@ -151,6 +185,10 @@ package blockstore
 //@   ensures released [C08]: held(b.ronly.mu) == 0
 
 //@ func (*ReadWrite).Finalize
+//@   let ferr := call[ReadWrite.finalizeReadOnlyWithoutMutex#0]
+//@   let cerr := call[ReadWrite.closeWithoutMutex#0]
+//@   ensures reports_the_first_failure [C04,C16]: (ferr != nil ==> err == ferr) && (ferr == nil ==> err == cerr)
+//@   loop[0] invariant results_seen_so_far_were_nil [C04,C16]: (rangeindex >= 0 ==> ferr == nil) && (rangeindex >= 1 ==> cerr == nil)
 //@   requires writer: b.opts.WriteAsCarV1 || b.dataWriter != nil
 //@   requires unlocked [C08]: held(b.ronly.mu) == 0
 //@   ensures released [C08]: held(b.ronly.mu) == 0
@@ -169,6 +207,9 @@ package blockstore
 //@   ensures released [C08]: held(b.ronly.mu) == 0
 
 //@ func (*ReadWrite).closeWithoutMutex
+//@   let cerr := call[ReadOnly.closeWithoutMutex#0]
+//@   ensures closes_a_finalized_store [C04]: (b.opts.WriteAsCarV1 || old(b.finalized)) && !old(b.ronly.closed) ==> b.ronly.closed && err == cerr
+//@   ensures second_close_is_an_error [C04]: (b.opts.WriteAsCarV1 || old(b.finalized)) && old(b.ronly.closed) ==> err != nil
 //@   requires write_locked [C08]: held(b.ronly.mu) == 2
 //@   ensures still_locked [C08]: held(b.ronly.mu) == 2
 //@   ensures closed [C04]: err == nil ==> b.ronly.closed
